@@ -258,6 +258,34 @@ pub fn run(tier: Tier) -> i32 {
         }
     });
     stats.merge(s);
+    // 1c. attempts that last a fractional number of seconds: the packet in front of the stall is delayed by 1 .. 2500 ms, so the
+    //     failed attempt ends 60.001 / 2.25 / 3.5 ... s after it began (on a paused clock every other duration is a whole second)
+    let s = ctx.shards("stalls-subsecond", OPS.len() as u64, |i, _seed, st| {
+        let op = OPS[i as usize];
+        for rct in [15u8, 0, 1] {
+            if rct != 15 && op != "read_card" {
+                continue;
+            }
+            let cfg = CfgSpec { rct, ..cfg0.clone() };
+            let script = dry_run(op, &cfg);
+            let from_start = op == "new";
+            for (kind, occ, packets) in &script {
+                for pos in 1..*packets {
+                    for ms in [1u64, 250, 999, 1001, 2500] {
+                        for always in [false, true] {
+                            let mut sc = base_scenario(op, cfg.clone());
+                            sc.sim.intermediates = 1;
+                            sc.plan = vec![PlanEntry { kind: *kind, occ: if always { None } else { Some(*occ) }, from_start, directive: Directive { fault: Some((FaultKind::Silence, pos)), delay_ms: Some((pos - 1, ms)), ..Default::default() } }];
+                            st.case(true, fnv(&serde_json::to_vec(&sc).unwrap()));
+                            st.class(&format!("stall-after-a-sub-second-delay:{op}"));
+                            ctx.record(check_returns(&sc), st);
+                        }
+                    }
+                }
+            }
+        }
+    });
+    stats.merge(s);
     // 2. read_card_timeout 0..=255 exhaustively: plain call, silent terminal, and "answers at t+1" (no collapse)
     let s = ctx.shards("rct", 16, |i, _seed, st| {
         let mut t = i as u32;
@@ -306,7 +334,7 @@ pub fn run(tier: Tier) -> i32 {
     stats.exhaustive_parts = vec!["every packet position (ack and each reply, header-only variant, once / on every attempt) of every exchange in the fault-free transcript of each of the 6 operations, plus stalls in the handshake of a forced reconnect and in connect()".into(), "read_card_timeout 0..=255 x {plain, silent terminal, answer at t+1}".into()];
     ctx.finish(
         stats,
-        "the real Feig client against the simulated terminal on tokio's paused clock. Positions come from a fault-free dry run of each operation (handshake included); one stall {silence, packet header then silence} x {once, on every attempt} per position, also with a dangling pre-authorisation in the terminal (stalls inside the clean-up's reversal exchange), each with the terminal's intermediate status carrying time-out byte 00 / absent / 99 / 02 / status ff; stalls in the handshake of a forced reconnect; connect() never completing / refused; read_card_timeout 0..=255 exhaustively incl. a terminal answering t+1 s after its ack; proptest-sampled configurations (password, currency, amount, terminal id, max transactions) x stalls. Oracle: under a one-virtual-day watchdog the call returns, without panic, within S(op)*20*3*(T+2) virtual seconds, and a timeout inside the configured window does not abandon the exchange. non-trivial = stall inside a handshake or at a reply position >= 1, or read_card_timeout in {0,253,254,255}; distinct by scenario",
+        "the real Feig client against the simulated terminal on tokio's paused clock. Positions come from a fault-free dry run of each operation (handshake included); one stall {silence, packet header then silence} x {once, on every attempt} per position, also behind a packet delayed by 1 / 250 / 999 / 1001 / 2500 ms (attempts of fractional length), also with a dangling pre-authorisation in the terminal (stalls inside the clean-up's reversal exchange), each with the terminal's intermediate status carrying time-out byte 00 / absent / 99 / 02 / status ff; stalls in the handshake of a forced reconnect; connect() never completing / refused; read_card_timeout 0..=255 exhaustively incl. a terminal answering t+1 s after its ack; proptest-sampled configurations (password, currency, amount, terminal id, max transactions) x stalls. Oracle: under a one-virtual-day watchdog the call returns, without panic, within S(op)*20*3*(T+2) virtual seconds, and a timeout inside the configured window does not abandon the exchange. non-trivial = stall inside a handshake or at a reply position >= 1, or read_card_timeout in {0,253,254,255}; distinct by scenario",
         &["time is tokio's paused clock: 'does not return' is decided in virtual time, never by wall clock", "a terminal that keeps sending a packet every 59 s forever is not a stall in the property's sense and is not generated", "in-memory duplex streams; only the current_thread runtime is explored (Feig is driven through &mut self and spawns nothing)"],
         false,
     )
